@@ -272,9 +272,16 @@ def rule_c(rep: Report, idx: SourceIndex, nm: NodeModel) -> None:
 	# the algorithm we mirror
 	pk = nm.node_cls.method('prop_keys')
 	emb = nm.node_cls.method('__embed_classes')
-	src = unparse(pk.node) if pk else ''
-	ok = pk is not None and emb is not None and 'Meta.dig_for_method(Node, ctor, EmbedKeys.Expandable' in src and '__embed_classes' in src and 'reversed(classes)' in unparse(emb.node) and 'cls.__mro__' in unparse(emb.node)
-	r.check(ok, 'Node.prop_keys algorithm', pk.where if pk else nm.node_cls.where, 'Node.prop_keys/__embed_classes changed; NodeModel.prop_keys must be re-derived')
+	if pk is None:
+		raise AnalysisError('Node.prop_keys vanished')
+	pcl = closure(pk)
+	digs = [c_ for c_ in calls(pcl, 'Meta.dig_for_method') if len(c_.args) >= 3 and unparse(c_.args[2]) == 'EmbedKeys.Expandable']
+	mro = any(isinstance(n, ast.Attribute) and n.attr == '__mro__' for n in nodes(pcl))
+	rev = has_call(pcl, 'reversed') or has_call(pcl, 'reverse') or any(isinstance(n, ast.Subscript) and unparse(n.slice) == '::-1' for n in nodes(pcl))
+	if digs and mro and rev:
+		r.ok('Node.prop_keys algorithm', pk.where)
+	else:
+		r.skip('Node.prop_keys algorithm', pk.where, f'Node.prop_keys is no longer `for ctor in reversed(subclasses-of-Node in cls.__mro__): Meta.dig_for_method(Node, ctor, EmbedKeys.Expandable)` (dig: {bool(digs)}, mro: {mro}, base-first: {rev}); NodeModel.prop_keys mirrors that algorithm')
 
 
 # ---- (d) Procedure: one result per node --------------------------------------------------------------------------------------
